@@ -132,7 +132,7 @@ impl OperationControl for Repeat {
                 let mut it = self.operation.matches_iter(matcher, p);
                 if let Some(next) = it.next() {
                     #[cfg(regexml_verif)]
-                    zero_width.note(p, next);
+                    zero_width.note_extension(&positions);
                     #[cfg(regexml_verif)]
                     let stop = next == p
                         && iterators.len() + 1 - zero >= min
@@ -269,10 +269,6 @@ impl Iterator for GreedyRepeatIterator<'_> {
                 if let Some(mut p) = top.next() {
                     self.positions.pop();
                     #[cfg(regexml_verif)]
-                    if let Some(&from) = self.positions.last() {
-                        self.zero_width.note(from, p);
-                    }
-                    #[cfg(regexml_verif)]
                     let mut empty = self.positions.last() == Some(&p);
                     self.positions.push(p);
                     while self.iterators.len() < self.bound {
@@ -288,7 +284,7 @@ impl Iterator for GreedyRepeatIterator<'_> {
                         let mut it = self.operation.matches_iter(self.matcher, p);
                         if let Some(next) = it.next() {
                             #[cfg(regexml_verif)]
-                            self.zero_width.note(p, next);
+                            self.zero_width.note_extension(&self.positions);
                             #[cfg(regexml_verif)]
                             {
                                 empty = next == p;
@@ -389,7 +385,9 @@ impl Iterator for ReluctantRepeatIterator<'_> {
                 let mut it = self.operation.matches_iter(self.matcher, current);
                 if let Some(p) = it.next() {
                     #[cfg(regexml_verif)]
-                    self.zero_width.note(current, p);
+                    if count >= 1 {
+                        self.zero_width.note(previous, current);
+                    }
                     self.iterators.push(it);
                     self.positions.push(p);
                     if self.iterators.len() >= self.min {
